@@ -60,8 +60,8 @@ def c17(tier: str) -> PropResult:
                   "action_coverage": st["tlc"]["coverage"]},
     }
     return PropResult(viols, cov, [
-        "scales of the concretisations: 1e-300 ... 1e9; boxes within a factor 4 of the largest double (x - lower or "
-        "2 * range overflows) are not covered - DESIGN 10.7b records an observation there",
+        "scales of the concretisations: 1e-300 ... 1e9, and 2^1022 (near-max: only lattice points that are finite doubles); "
+        "inputs whose offset x - lower overflows there are the known finding KF-C17-overflow",
         "IEEE rounding is outside TLA+: lattice values are concretised by the harness and compared with the "
         "tolerance the property states (exact containment; 4 ulp for identity; (16+8n) ulp for the repaired value)",
         "apply_bounds is the only bound-repair entry point (its callers are covered by C01)",
